@@ -100,6 +100,30 @@ def run(rep, work, tier, seed, props, replay=None):
             for msg in r.get("oracle", []):
                 if "modified" in msg or "input" in msg:
                     rep.violation({"kind": "nnet layer: " + msg, "task": t})
+    # every operation of the catalogue (harness/impl/ops_impl.py: ~1100 operation x option entries): inputs / seed untouched, no gradient aliasing, copies own their gradient
+    sweep, sweep_bad, sweep_skipped = [], 0, 0
+    if replay is None or "catalog_index" in (replay or {}):
+        info = run_impl_parallel("ops_impl.py", [{"list": True}])[0]
+        idx = list(range(info["n"])) if replay is None else [replay["catalog_index"]]
+        variants = [0, 1, 2] if tier == "thorough" else [0, 1]
+        seeds = [seed, seed + 1] if tier == "thorough" else [seed]
+        tasks = [{"index": i, "mode": "alias", "variant": v, "seed": sd} for v in variants for sd in seeds for i in idx]
+        parts = [tasks[i::16] for i in range(16)]
+        flat = [t for p in parts for t in p]
+        for rr in run_impl_parallel("ops_impl.py", [{"tasks": p} for p in parts if p]):
+            sweep.extend(rr["results"])
+        shown = set()
+        for t, r in zip(flat, sweep):
+            if "harness_error" in r:
+                raise HarnessError("ops_impl: " + r["harness_error"])
+            if r.get("skipped"):
+                sweep_skipped += 1
+            for m in r.get("msgs", []):
+                sweep_bad += 1
+                key = (r["label"].split("(")[0].split(" ")[0], m)
+                if key not in shown and len(shown) < 8:
+                    shown.add(key)
+                    rep.violation({"kind": "operation sweep: %s -- %s" % (m, r["label"]), "catalog_index": t["index"], "variant": t["variant"], "seed": t["seed"], "label": r["label"]})
     if not props["ok"]:
         rep.violation({"kind": "proof obligations of Props/C12.v no longer check", "broken": "Props/C12.v", "log": props["log"][-1500:]}, no_input=not viol)
 
@@ -109,7 +133,9 @@ def run(rep, work, tier, seed, props, replay=None):
         return owned >= 1 and len([s for s in b.stmts if s["op"] == "apply"]) >= 2
     nt = set(progs.canonical(b) for b in builders if nontrivial(b))
     rep.coverage.update({
-        "evaluations": len(builders) + len(lres),
+        "evaluations": len(builders) + len(lres) + len(sweep),
+        "operation_sweep": {"entries_x_variants": len(sweep), "skipped": sweep_skipped, "messages": sweep_bad,
+                            "variants": "0: tensor operands + owning seed; 1: first operand a caller-owned raw array, tensors built with copy=False, non-owning seed; 2: float32"},
         "distinct_nontrivial": len(nt),
         "rule": "family histories (views, reads, in-place updates, index arrays) or plain DAG programs, then either a terminal + backward() or backward(seed) on an intermediate with an owning or non-owning seed; "
                 "plus 12 nnet layers/losses x 2 dtypes; non-trivial = >= 1 caller-owned array and >= 2 operations; distinct = distinct statement list",
